@@ -123,7 +123,7 @@ class TU:
         os.makedirs(self.dir)
         ll = os.path.join(self.dir, 'tu.ll'); c = os.path.join(self.dir, 'tu.c'); gb = os.path.join(self.dir, 'tu.gb')
         t0 = time.time()
-        flags = [f for f in CLANG_FLAGS if not (f == '-fno-inline' and self.tu_opts.get('inline') == '1')]
+        flags = [f for f in CLANG_FLAGS if not (f == '-fno-inline' and self.tu_opts.get('inline') == '1') and not (f == '-fno-exceptions' and self.tu_opts.get('exceptions') == '1')]
         rc, out, err, w, _ = run([CLANG] + flags + ['-D' + d for d in self.defs] + [self.src, '-o', ll], timeout=600)
         if rc != 0:
             if self.tu_opts.get('must_compile') == '1':
@@ -149,7 +149,8 @@ class TU:
         t0 = time.time()
         try:
             mod_text = open(ll).read()
-            csrc, info = ir2c.translate(mod_text, want_info=True)
+            exc = self.tu_opts.get('exceptions') == '1'
+            csrc, info = ir2c.translate(mod_text, want_info=True, exceptions=exc)
             self.shared_globals = []
             if self.tu_opts.get('guard') == '1':
                 # C19: every access to a mutable, non-thread_local global that belongs to library code becomes an assertion;
@@ -157,7 +158,7 @@ class TU:
                 mg = info['mutable_globals']; dem = demangle(mg)
                 self.shared_globals = [(m, d) for m, d in zip(mg, dem) if 'nop::' in d]
                 if self.shared_globals:
-                    csrc, info = ir2c.translate(mod_text, want_info=True, guard_globals=[m for m, d in self.shared_globals])
+                    csrc, info = ir2c.translate(mod_text, want_info=True, guard_globals=[m for m, d in self.shared_globals], exceptions=exc)
         except ir2c.Unsupported as e:
             raise Broken('translator: unsupported construct in %s: %s' % (self.tag, e))
         open(c, 'w').write(csrc)
